@@ -66,6 +66,10 @@ def run(e: Engine, rep: Report):
              'it was given and by removing its Content-Transfer-Encoding '
              'header (no set_payload / header rewriting of its own)')
     e7(e, rep)
+    rep.rule('E8', 'no text-conversion exception (strict codec, table '
+             'c11.TEXT_RAISES) leaves Envelope.parse: the header-less and '
+             'the 8-bit input are parsed like any other')
+    e8(e, rep)
     rep.floor('E2', 4, 'body provenance obligations')
 
 
@@ -551,6 +555,20 @@ def e5(e: Engine, rep: Report):
                   loc=h.loc(), reason='handler ends in raise or '
                   '_encode_parts', witness=dataflow.render_path(pth, 8)
                   if pth else None)
+    # ... and nothing returns before the body was looked at: what the
+    # headers say about the encoding is the sender's claim, not a fact
+    rep.evaluations += 1
+    pth = dataflow.find_path(
+        g, g.entry, lambda x: x is g.exit,
+        avoid=lambda x: x in probes,
+        edge_ok=lambda a, l, s: not isinstance(l, tuple))
+    rep.check(pth is None, 'E5', where,
+              'every return of encode_7bit lies behind the ASCII probe',
+              'encode_7bit can return without having tried to decode the '
+              'body as ASCII: a body that contains 8-bit bytes passes as '
+              '7-bit whatever its labels say', loc=ctx.func.loc(),
+              reason='self.message.decode(\'ascii\') on every path to the '
+              'exit', witness=dataflow.render_path(pth, 8) if pth else None)
 
 
 def e7(e: Engine, rep: Report):
@@ -624,3 +642,54 @@ def e7(e: Engine, rep: Report):
                       if bad else 'no encoder call'),
                   loc=ctx.func.loc(bad[0] if bad else lp),
                   reason='encoder(part) and header removal only')
+
+
+# ---------------------------------------------------------------------- E8
+def e8(e: Engine, rep: Report):
+    from . import c11
+    rep.tables.add('c11.TEXT_RAISES')
+    ctx = e.method_ctx(ENV, 'parse')
+
+    def raises(b, n, r):
+        if n.kind != 'call' or (r is not None and r.targets):
+            return set()
+        nm = e.call_name(n)
+        toks = c11.TEXT_RAISES.get(nm)
+        if not toks or nm not in ('encode', 'decode'):
+            return set()
+        args = list(n.ast.args)
+        kw = {k.arg: k.value for k in n.ast.keywords}
+        enc = args[0] if args else kw.get('encoding')
+        err = args[1] if len(args) > 1 else kw.get('errors')
+        if isinstance(err, ast.Constant) and err.value in c11.LENIENT_ERRORS:
+            return set()
+        if nm == 'encode' and (enc is None or (
+                isinstance(enc, ast.Constant) and
+                str(enc.value).lower() in c11.TOTAL_CODECS)):
+            return set()
+        return set(toks)
+    g = e.build(ctx, inline=e.inline_same_self(), raises=raises, max_depth=4)
+    where = ctx.func.qname
+    rep.functions.add(where)
+    reach = dataflow.reachable(g)
+    esc = {}
+    for n in g.nodes:
+        if n.id not in reach or n.kind != 'call':
+            continue
+        for l, s2 in n.succ:
+            if s2 is g.raise_exit and isinstance(l, tuple) and \
+                    'Unicode' in l[1]:
+                esc.setdefault(l[1], n)
+    rep.evaluations += 1
+    if not esc:
+        rep.ok('E8', where, 'no strict text conversion on the way',
+               reason='every encode / decode below parse() is total, '
+               'lenient or handled', loc=ctx.func.loc())
+    for t, n in sorted(esc.items()):
+        pth = dataflow.find_path(g, g.entry, lambda x: x is n)
+        rep.bad('E8', where, '%s leaves parse()' % t.rpartition('.')[2],
+                '`%s` raises for input with bytes outside its codec (the '
+                'parser hands 8-bit bytes on as surrogate escapes): '
+                'Envelope.parse fails on a message it used to accept'
+                % n.text(50), loc=n.loc(),
+                witness=dataflow.render_path(pth, 10) if pth else None)
